@@ -68,3 +68,98 @@ def header_rule(chk, db, rule_id):
                 chk.ob(rule_id, w.key, "header number %d is the length of vector %d (`%s`)" % (k, pos, txt(strip(wvecs[pos]))[:30]), got == want, w.loc(wnums[k]),
                        "" if got == want else "the writer stores `%s`; the reader constructs `%s` with that many elements and reads them" % (got, loc[did].get("name")), want)
     return n
+
+
+def sequenced_reads_rule(chk, db, rule_id, files):
+    """two reads of one stream are never unsequenced: the arguments of a call are evaluated in an unspecified order"""
+    from tsg.facts import strip, txt, callee, call_args, walk, short
+    chk.rule(rule_id, "no call, member call or parenthesised constructor call has two arguments that each read from a stream (IO::read*, operator>>, a Reader constructor taking the stream): "
+                      "the order in which function arguments are evaluated is unspecified (g++ goes right to left), so the fields would be taken from the file in the wrong order; "
+                      "a braced initialiser list T{a, b} is evaluated left to right and is the accepted form")
+    n = 0
+
+    def reads_stream(e):
+        for q in [e] + list(walk(e)):
+            k = q.get("k")
+            if k in ("CallExpr", "CXXMemberCallExpr") and (callee(q) or "").startswith("TasGrid::IO::read"):
+                return True
+            if k == "CXXOperatorCallExpr" and q.get("op") == ">>":
+                return True
+            if k in ("CXXConstructExpr", "CXXTemporaryObjectExpr") and any("istream" in ((strip(a) or {}).get("t") or "") for a in [c for c in q.get("c", []) if isinstance(c, dict)]):
+                return True
+        return False
+    for f in db.all_functions(files):
+        for q in f.walk():
+            k = q.get("k")
+            if k in ("CallExpr", "CXXMemberCallExpr"):
+                args = call_args(q)
+            elif k in ("CXXConstructExpr", "CXXTemporaryObjectExpr") and not q.get("listinit"):
+                args = [c for c in q.get("c", []) if isinstance(c, dict)]
+            else:
+                continue
+            if len(args) < 2:
+                continue
+            readers = [a for a in args if reads_stream(a)]
+            if not readers:
+                continue
+            n += 1
+            chk.saw(f)
+            chk.ob(rule_id, f.key + f.sig, "arguments of `%s` @%d" % (txt(q)[:50], q.get("l", 0)), len(readers) < 2, f.loc(q),
+                   "" if len(readers) < 2 else "%d arguments read from the stream; their order of evaluation is unspecified" % len(readers), "at most one stream read among the arguments of a call")
+    return n
+
+
+def value_guards(db, f):
+    """throws of f that are guarded by an order comparison between two floating point data values (elements of double vectors / double variables)"""
+    from tsg.facts import strip, txt, walk
+    from tsg.flow import cond_edges_dominating
+
+    def is_data(e):
+        e = strip(e)
+        if e is None:
+            return False
+        t = (e.get("t") or "")
+        if e.get("k") in ("ArraySubscriptExpr", "CXXOperatorCallExpr") and (e.get("op") in (None, "[]")) and "double" in t:
+            return True
+        return e.get("k") == "DeclRefExpr" and t.replace("const ", "").strip() in ("double", "double &")
+    out = []
+    for th in f.walk():
+        if th.get("k") != "CXXThrowExpr":
+            continue
+        for cnd, truth in cond_edges_dominating(f, th):
+            for q in [cnd] + list(walk(cnd)):
+                if q.get("k") == "BinaryOperator" and q.get("op") in ("<", "<=", ">", ">=") and is_data(q["c"][0]) and is_data(q["c"][1]):
+                    out.append((th, txt(q)))
+    return out
+
+
+def accepts_rule(chk, db, rule_id):
+    """the readers reject a file for its format, never for an order relation between restored floating point values"""
+    from tsg.facts import callee, short
+    from tsg.build import AnalysisBroken
+    chk.rule(rule_id, "what write() produces, read() accepts: a throw in the top-level readers of the grid (readAscii / readBinary and the file-local helpers they call) is guarded by the "
+                      "state of the stream, tags, versions and counts - not by an order comparison between two restored floating point values, which no setter enforces "
+                      "(the pair (a, b) of a domain transform is shift and scale for the Hermite / Laguerre families, not an interval)")
+    TSGC = "TasGrid::TasmanianSparseGrid"
+    readers = [f for f in db.all_functions(["SparseGrids/TasmanianSparseGrid.cpp"]) if f.cls == TSGC and short(f.name) in ("readAscii", "readBinary", "read")]
+    helpers = []
+    for f in readers:
+        for c in f.calls():
+            g = db.resolve(c)
+            if g is not None and g.file == "SparseGrids/TasmanianSparseGrid.cpp" and g.cls in (None, "", TSGC) and g not in readers and not (g.cls == TSGC and g.d.get("access") == "public"):
+                helpers.append(g)
+    n = 0
+    for f in readers + helpers:
+        nthrow = sum(1 for q in f.walk() if q.get("k") == "CXXThrowExpr")
+        if not nthrow:
+            continue
+        n += nthrow
+        chk.saw(f)
+        bad = value_guards(db, f)
+        chk.ob(rule_id, f.key + f.sig, "%d rejection(s) of the input" % nthrow, not bad, f.loc(bad[0][0]) if bad else f.where,
+               "" if not bad else "rejected when `%s`: write() stores such values (shift and scale of an unbounded rule), the file it wrote cannot be read back" % bad[0][1])
+    ctl = db.fns("VerifControls::control_value_guard", required=False)
+    if not ctl or not value_guards(db, ctl[0]):
+        raise AnalysisBroken("%s: the positive control (instantiate/controls.cpp, control_value_guard) is not reported: the matcher is broken" % rule_id)
+    chk.ob(rule_id, "(control)", "the rule reports the seeded control in instantiate/controls.cpp", True, "", "value-ordered rejection reported")
+    return n
